@@ -13,8 +13,10 @@ import (
 
 var checks = map[string]func(*rules.Ctx){
 	"C01": rules.C01,
+	"C02": rules.C02,
 	"C04": rules.C04,
 	"C05": rules.C05,
+	"C11": rules.C11,
 	"C12": rules.C12,
 	"C14": rules.C14,
 }
